@@ -10,6 +10,7 @@
 * PATENTS file, you can obtain it at https://www.aomedia.org/license/patent-license.
 */
 
+#include "EbVerifHooks.h"
 #include <stdlib.h>
 
 #include "EbEncHandle.h"
@@ -4402,6 +4403,12 @@ void *mode_decision_kernel(void *input_ptr) {
                                        &segment_index,
                                        enc_dec_tasks_ptr,
                                        context_ptr->enc_dec_feedback_fifo_ptr) == EB_TRUE) {
+#ifdef SVT_AV1_VERIF
+            SVT_VERIF_EVENT(SVT_VERIF_EV_SEG_PIC, pcs_ptr->picture_number, context_ptr->tile_group_index,
+                            ((uint64_t)tile_group_width_in_sb << 16) | segments_ptr->sb_row_count,
+                            ((uint64_t)segments_ptr->segment_band_count << 16) | segments_ptr->segment_row_count);
+            SVT_VERIF_EVENT(SVT_VERIF_EV_SEG_ASSIGN, pcs_ptr->picture_number, context_ptr->tile_group_index, segment_index, 0);
+#endif
             x_sb_start_index = segments_ptr->x_start_array[segment_index];
             y_sb_start_index = segments_ptr->y_start_array[segment_index];
             sb_start_index = y_sb_start_index * tile_group_width_in_sb + x_sb_start_index;
@@ -4448,6 +4455,10 @@ void *mode_decision_kernel(void *input_ptr) {
                             .tile_group_sb_start_x;
                     sb_index = context_ptr->md_context->sb_index =(uint16_t)((y_sb_index + tile_group_y_sb_start) * pic_width_in_sb +
                         x_sb_index + tile_group_x_sb_start);
+#ifdef SVT_AV1_VERIF
+                    SVT_VERIF_EVENT(SVT_VERIF_EV_SEG_SB_START, pcs_ptr->picture_number, context_ptr->tile_group_index, segment_index,
+                                    ((uint64_t)x_sb_index << 16) | y_sb_index);
+#endif
                     sb_ptr = context_ptr->md_context->sb_ptr = pcs_ptr->sb_ptr_array[sb_index];
                     sb_origin_x = (x_sb_index + tile_group_x_sb_start) << sb_size_log2;
                     sb_origin_y = (y_sb_index + tile_group_y_sb_start) << sb_size_log2;
@@ -4674,6 +4685,10 @@ void *mode_decision_kernel(void *input_ptr) {
 #endif
 
                     context_ptr->coded_sb_count++;
+#ifdef SVT_AV1_VERIF
+                    SVT_VERIF_EVENT(SVT_VERIF_EV_SEG_SB_END, pcs_ptr->picture_number, context_ptr->tile_group_index, segment_index,
+                                    ((uint64_t)x_sb_index << 16) | y_sb_index);
+#endif
                     if (pcs_ptr->parent_pcs_ptr->reference_picture_wrapper_ptr != NULL)
                         ((EbReferenceObject *)
                              pcs_ptr->parent_pcs_ptr->reference_picture_wrapper_ptr->object_ptr)
